@@ -148,14 +148,46 @@ func main() {
 	for _, j := range detJobs {
 		runJob(j, gen.RunDeterminism)
 	}
-	all := append(jobs, detJobs...)
-	for _, j := range all {
-		if j.err != "" {
-			fatal("%s", j.err)
+	allJobs := append(jobs, detJobs...)
+	// A history that crashes the generator (typically: a staging step that must succeed under the
+	// documented preconditions was rejected by the implementation) is not a harness failure: it is
+	// reported as a violation that concerns every property checked through this family.
+	var all []*job
+	var crashed []*job
+	for _, j := range allJobs {
+		if j.err != "" || j.res == nil {
+			crashed = append(crashed, j)
+			continue
 		}
+		all = append(all, j)
+	}
+	if len(all) == 0 {
+		fatal("every history crashed; first: %s", crashed[0].err)
 	}
 
 	sum := summarize(*seed, *tier, all)
+	for i, j := range crashed {
+		if i >= 5 {
+			break
+		}
+		key := "harness-crash"
+		if strings.Contains(j.err, "staging step failed") {
+			key = "expected-success-failed"
+		}
+		first := j.err
+		if k := strings.Index(first, "\ngoroutine"); k > 0 {
+			first = first[:k]
+		}
+		sum.MonitorViolations = append(sum.MonitorViolations, common.MonitorViolation{
+			Property: "*", Key: key,
+			Desc:  "an operation that must succeed when its documented preconditions hold was rejected while preparing a history: " + first,
+			Input: map[string]interface{}{"family": j.cfg.Family, "n": j.cfg.N, "seed": j.cfg.Seed, "replay": fmt.Sprintf("bin/ledger -seed %d -tier %s -one %s:%d -out <dir>", *seed, *tier, j.cfg.Family, j.cfg.N)},
+		})
+	}
+	if sum.Extra == nil {
+		sum.Extra = map[string]interface{}{}
+	}
+	sum.Extra["crashed_histories"] = len(crashed)
 	if err := common.WriteJSON(filepath.Join(*out, "summary.json"), sum); err != nil {
 		fatal("%v", err)
 	}
